@@ -216,9 +216,10 @@ func lossy(cv *ssa.Convert) bool {
 // whose outcome controls sink: some If whose cond compares a raw value and one of
 // whose edges dominates the sink's block.
 func sanitizedAt(fn *ssa.Function, sink ssa.Instruction, raw map[ssa.Value]bool, family map[ssa.Value]bool) (bool, string) {
-	// idiom (b): the converted value is sign-checked (`x < 0` rejects) and bounded by a
-	// second rejecting comparison – sound for conversions that can only wrap negative
-	signChk, bound := false, false
+	// A guard is a conditional branch that dominates the sink, one of whose edges cannot
+	// reach the sink and rejects (returns / leaves the record loop).  It is an UPPER bound
+	// for operand v when the rejecting edge is the one on which v is the greater side.
+	rawUpper, famUpper, signChk := false, false, false
 	for _, b := range fn.Blocks {
 		ifi := ifOf(b)
 		if ifi == nil || !b.Dominates(sink.Block()) {
@@ -233,6 +234,7 @@ func sanitizedAt(fn *ssa.Function, sink ssa.Instruction, raw map[ssa.Value]bool,
 		if r0 == r1 {
 			continue
 		}
+		rejectOnTrue := !r0
 		other := b.Succs[0]
 		if r0 {
 			other = b.Succs[1]
@@ -240,53 +242,45 @@ func sanitizedAt(fn *ssa.Function, sink ssa.Instruction, raw map[ssa.Value]bool,
 		if !rejects(other) {
 			continue // a branch that merely selects a path is not a bound
 		}
-		if family[bo.X] || family[bo.Y] {
-			if z, isC := ConstInt(bo.Y); isC && z == 0 && bo.Op == token.LSS && family[bo.X] {
+		// normalise to "X op Y is true on the rejecting edge"
+		op := bo.Op
+		if !rejectOnTrue {
+			switch op {
+			case token.LSS:
+				op = token.GEQ
+			case token.LEQ:
+				op = token.GTR
+			case token.GTR:
+				op = token.LEQ
+			case token.GEQ:
+				op = token.LSS
+			default:
+				continue
+			}
+		}
+		xGreater := op == token.GTR || op == token.GEQ // rejects when X is large
+		yGreater := op == token.LSS || op == token.LEQ // rejects when Y is large (X small)
+		if !xGreater && !yGreater {
+			continue
+		}
+		if family[bo.X] && xGreater || family[bo.Y] && yGreater {
+			famUpper = true
+			if raw[bo.X] && xGreater || raw[bo.Y] && yGreater {
+				rawUpper = true
+			}
+		}
+		// sign check: X < 0 rejects
+		if family[bo.X] && yGreater {
+			if z, isC := ConstInt(bo.Y); isC && z == 0 {
 				signChk = true
-			} else if bo.Op == token.LSS || bo.Op == token.LEQ || bo.Op == token.GTR || bo.Op == token.GEQ {
-				bound = true
 			}
 		}
 	}
-	if signChk && bound {
-		return true, "sign-checked and bounded after conversion"
+	if rawUpper {
+		return true, "upper-bounded by a rejecting comparison on the unconverted length"
 	}
-	for _, b := range fn.Blocks {
-		ifi := ifOf(b)
-		if ifi == nil {
-			continue
-		}
-		bo, ok := ifi.Cond.(*ssa.BinOp)
-		if !ok {
-			continue
-		}
-		switch bo.Op {
-		case token.LSS, token.LEQ, token.GTR, token.GEQ:
-		default:
-			continue
-		}
-		hit := false
-		for _, op := range []ssa.Value{bo.X, bo.Y} {
-			if raw[op] && family[op] {
-				hit = true
-			}
-		}
-		if !hit {
-			continue
-		}
-		if b.Dominates(sink.Block()) {
-			r0 := blockReaches(b.Succs[0], sink.Block())
-			r1 := blockReaches(b.Succs[1], sink.Block())
-			if r0 != r1 {
-				other := b.Succs[0]
-				if r0 {
-					other = b.Succs[1]
-				}
-				if rejects(other) {
-					return true, "bounded by a rejecting comparison on the unconverted length"
-				}
-			}
-		}
+	if famUpper && signChk {
+		return true, "sign-checked and upper-bounded after conversion"
 	}
 	return false, ""
 }
